@@ -115,9 +115,10 @@ func execLife(t *testing.T, prop string, planJSON []byte, ch *simrt.Choices, tra
 				if obs.Exited {
 					end = obs.ExitAt
 				}
-				if lat := end - obs.SignalAt; lat > exitBound {
+				// stalls injected by the harness after the signal are not the collector's time
+				if lat := end - obs.SignalAt; lat > exitBound+obs.StallAfterSignal {
 					out.Violations = append(out.Violations, Violation{Prop: prop, Class: "slow-exit", Key: "exit latency",
-						Msg: fmt.Sprintf("%s: the collector needed %v of simulated time to stop after the signal (bound %v)", inc, lat, exitBound)})
+						Msg: fmt.Sprintf("%s: the collector needed %v of simulated time to stop after the signal (bound %v plus %v of injected stalls)", inc, lat, exitBound, obs.StallAfterSignal)})
 					return out
 				}
 			}
@@ -295,6 +296,17 @@ func genLifePlan(seed int64, tier string) *LifePlan {
 			p.Cfg.StallMaxMs = 50
 		}
 		last := k == nInc-1
+		slow := !last && r.Intn(4) == 0
+		if slow {
+			// slow workers: long and frequent stalls, so that a backlog of template
+			// announcements received shortly before the signal is still being
+			// worked off (templates inserted) while shutdown dumps the cache
+			p.Cfg.StallProb = []int{1500, 2500, 4000}[r.Intn(3)]
+			p.Cfg.StallMaxMs = []int{100, 300}[r.Intn(2)]
+			p.Cfg.StallFilter = "Worker|shutdown"
+			p.Cfg.DiskChunk = []int{64, 256, 512}[r.Intn(3)]
+			p.Cfg.CapUDP = 1000
+		}
 		if !last {
 			// signal: at the opening of a phase, at a coinciding instant, at a random instant
 			p.Life.SignalPhase = 1 + r.Intn(p.NPhases)
@@ -363,6 +375,28 @@ func genLifePlan(seed int64, tier string) *LifePlan {
 						d.Abs = &m
 					}
 					p.Dels = append(p.Dels, d)
+				}
+				if slow {
+					n = len(p.Dels)
+					var tpl []int
+					for i := 0; i < n; i++ {
+						d := &p.Dels[i]
+						if d.Phase == 0 && d.Abs != nil && d.DupOf == 0 && !d.BadHeader {
+							tpl = append(tpl, i)
+						}
+					}
+					for j := 0; len(tpl) > 0 && j < 10+r.Intn(30); j++ {
+						d := p.Dels[tpl[r.Intn(len(tpl))]]
+						d.Phase = p.Life.SignalPhase
+						d.AtUs = p.Life.SignalAtUs - r.Intn(50000)
+						if d.AtUs < 0 {
+							d.AtUs = 0
+						}
+						d.AbsUs = 0
+						d.ID = len(p.Dels)
+						restamp(&d, uint32(14000+len(p.Dels)))
+						p.Dels = append(p.Dels, d)
+					}
 				}
 				// steady traffic that does not stop with the signal: one exporter per
 				// protocol keeps sending with gaps below the one-second read deadline
